@@ -8,3 +8,5 @@ import SpoxModel.Props.C18
 #print axioms C18.hooks_determine
 #print axioms C18.no_hooks_untyped
 #print axioms C18.dropped_iff
+#print axioms C18.relabel_build
+#print axioms C18.custom_composes
